@@ -271,7 +271,8 @@ func TestCheck(t *testing.T) {
 		"state = KV image + reflective dump of running filter and LRU; in every state that is distinct for queries (image without the snapshot key + the two index objects): "+
 		"%d filters x all ranges over endpoints {0,8191,8192,head-2..head+1} x chunk %v x scan limit %v (on ranges > %d blocks a fully wildcard filter is only run pattern-less, unlimited, chunk 100 and chunk 1) "+
 		"in every state of depth <= %d additionally 3 pre-confirmed chains (1-2 blocks) above the head x all filters x ranges reaching above the head incl. the pre_confirmed tag at either end; "+
-		"failed-commit sweep: every base x {store:X, store:Y, revert} x k-th commit fails -> same node answers the grid, retry succeeds; "+
+		"failed-commit sweep: every base x {store:X, store:Y, revert} x k-th commit fails -> same node answers the grid, retry succeeds and answers the grid, "+
+		"then every continuation of <= 2 further ops followed by an ungraceful restart answers the grid; "+
 		"paged to the end (tokens round-tripped through their string form, must advance) and compared event by event with the naive scan of the reference receipts",
 		opList(alphabet), len(h.filters), chunkSizes, scanLimits, longRange, pcDepth))
 	r.Assume = append(r.Assume,
